@@ -74,7 +74,7 @@ def run(ctx):
     fn = A.find1(r"^wtransport::driver::worker::Worker::accept_datagram::\{closure#0\}$")
     ps = nonpanic(walk(fn))
     okp = [p for p in ps if path_sig(p)[1] == "return Result::Ok(())"]
-    good = okp and all(any(re.match(r"^Permit::send\(.*,\(Datagram::read\(.*\) as Ok\)\.0\)$", e) for e in event_strs(p)) for p in okp)
+    good = okp and all(any(re.match(r"^Permit::send\(.*,ok\(Datagram::read\(.*\)\)\)$", e) for e in event_strs(p)) for p in okp)
     ctx.check("C08-R4", "accept_datagram hand-off", bool(good), "Worker::accept_datagram returns Ok without sending the parsed datagram to the reserved slot", where(fn))
 
     ctx.rule("C08-R5", "the worker's select-branch futures accept_uni/accept_bi/accept_datagram carry no stream-read progress")
